@@ -12,8 +12,8 @@ from __future__ import print_function, division, absolute_import
 from numbers import Integral
 import numpy as np
 
-from odl.operator.operator import Operator
-from odl.operator.default_ops import ZeroOperator
+from odl.operator.operator import Operator, OperatorComp
+from odl.operator.default_ops import ScalingOperator, ZeroOperator
 from odl.space import ProductSpace
 from odl.util import COOMatrix
 
@@ -530,6 +530,46 @@ class ProductSpaceOperator(Operator):
         return '{}({!r})'.format(self.__class__.__name__, aslist)
 
 
+def _pspace_weights(space):
+    """Return the per-component weights of a product space as an array."""
+    weighting = space.weighting
+    if hasattr(weighting, 'array'):
+        return np.asarray(weighting.array, dtype=float)
+    elif hasattr(weighting, 'const'):
+        return float(weighting.const) * np.ones(len(space))
+    else:
+        raise NotImplementedError('adjoint not implemented for weighting '
+                                  '{!r}'.format(weighting))
+
+
+def _projection_weight_ratio(space, index, subspace, inverse=False):
+    """Return the scaling in ``subspace`` that makes projections adjoint.
+
+    The inner product of ``space`` weights component ``i`` with ``w[i]``,
+    the one of ``subspace = space[index]`` weights its components with
+    ``v`` (or 1 if it is a single component). The operators
+    `ComponentProjection` and `ComponentProjectionAdjoint` are adjoint to
+    each other up to the component-wise factors ``v / w[index]`` in
+    ``subspace`` (their reciprocals for ``inverse=True``).
+    ``None`` is returned if all factors are 1.
+    """
+    weights = _pspace_weights(space)[index]
+    if isinstance(subspace, ProductSpace) and not np.isscalar(weights):
+        ratios = _pspace_weights(subspace) / weights
+        if inverse:
+            ratios = 1.0 / ratios
+        if np.all(ratios == 1.0):
+            return None
+        return DiagonalOperator(*[ScalingOperator(spc, ratio)
+                                  for spc, ratio in zip(subspace, ratios)],
+                                domain=subspace, range=subspace)
+    else:
+        ratio = float(weights) if inverse else 1.0 / float(weights)
+        if ratio == 1.0:
+            return None
+        return ScalingOperator(subspace, ratio)
+
+
 class ComponentProjection(Operator):
 
     r"""Projection onto the subspace identified by an index.
@@ -616,7 +656,13 @@ class ComponentProjection(Operator):
         --------
         ComponentProjectionAdjoint
         """
-        return ComponentProjectionAdjoint(self.domain, self.index)
+        adjoint = ComponentProjectionAdjoint(self.domain, self.index)
+        scaling = _projection_weight_ratio(self.domain, self.index,
+                                           self.range)
+        if scaling is None:
+            return adjoint
+        else:
+            return OperatorComp(adjoint, scaling)
 
     def __repr__(self):
         """Return ``repr(self)``.
@@ -713,7 +759,13 @@ class ComponentProjectionAdjoint(Operator):
             The adjoint is given by the `ComponentProjection` related to this
             operator's `index`.
         """
-        return ComponentProjection(self.range, self.index)
+        adjoint = ComponentProjection(self.range, self.index)
+        scaling = _projection_weight_ratio(self.range, self.index,
+                                           self.domain, inverse=True)
+        if scaling is None:
+            return adjoint
+        else:
+            return OperatorComp(scaling, adjoint)
 
     def __repr__(self):
         """Return ``repr(self)``.
